@@ -59,7 +59,8 @@ fn gen(rng: &mut Rng, _i: u64) -> String {
 		return format!("rich img={} expect=any key=0 nstub=0 recs=- extra=0", hex(&bytes));
 	}
 	// ---- DOS area
-	let stub_len = match rng.below(6) { 0 => 16, 1 => 17, 2 => 32, 3 => 64, _ => rng.range(16, 70) } as usize;
+	// (one in fifteen: a DOS area around and beyond one page - e_lfanew above 0x1000; validate_headers allows up to 16 MiB)
+	let stub_len = if rng.chance(1, 15) { *rng.pick(&[1010usize, 1016, 1017, 1018, 1020, 1024, 1025, 1100, 2050]) } else { (match rng.below(6) { 0 => 16, 1 => 17, 2 => 32, 3 => 64, _ => rng.range(16, 70) }) as usize };
 	let mut stub: Vec<u32> = (0..stub_len).map(|_| if rng.chance(1, 4) { 0 } else { rng.next() as u32 }).collect();
 	stub[0] = (stub[0] & 0xFFFF_0000) | 0x5A4D;
 	let nrec = match rng.below(10) { 0 => 0, 1 => 1, 2 => rng.range(30, 60), _ => rng.range(1, 9) } as usize;
@@ -84,6 +85,20 @@ fn gen(rng: &mut Rng, _i: u64) -> String {
 		recs[j] = (0x6144, 0x536e, 0);
 		recs[j + 1] = (0, 0, 0);
 	}
+	if mode == 3 && nrec >= 2 {
+		// NOT in the class: a near miss of the header pattern - three of the four words match, one does not.
+		// The backward scan must compare all four and walk past it.
+		let j = rng.below(nrec as u64 - 1) as usize;
+		let odd = rng.range(1, 0xFFFF_FFFF) as u32;
+		match rng.below(4) {
+			0 => { recs[j] = (0x6144, 0x536e, 0); recs[j + 1] = (0, 0, odd); },                       // DanS^k, k, k, *
+			1 => { recs[j] = (0x6144, 0x536e, 0); recs[j + 1] = (odd as u16 | 1, (odd >> 16) as u16, 0); }, // DanS^k, k, *, k
+			2 => { recs[j] = (0x6144, 0x536e, odd); recs[j + 1] = (0, 0, 0); },                       // DanS^k, *, k, k
+			_ => { recs[j] = (0x6145, 0x536e, 0); recs[j + 1] = (0, 0, 0); },                         // *, k, k, k
+		}
+	}
+	// the key of a round-trip case is the checksum of the records actually written
+	let key = if mode == 3 { rich_checksum(&stub, &recs) } else { key };
 	let mut words: Vec<u32> = Vec::new();
 	words.extend_from_slice(&stub);
 	words.push(DANS ^ key); words.push(key); words.push(key); words.push(key);
